@@ -38,8 +38,14 @@ def capacity(kind, N):
     return (1 << tree_depth(kind, N)) * (pf or 1)
 
 
+QUICK_FACTOR = 5
+THOROUGH_FACTOR = 8
+
+
 def scale(tier, quick, thorough):
-    return thorough if tier == 'thorough' else quick
+    """number of configurations / cases: the figures in the family functions are base values; the
+    machinery is fast (≈50k protocol lines per second), so both tiers multiply them."""
+    return thorough * THOROUGH_FACTOR if tier == 'thorough' else quick * QUICK_FACTOR
 
 
 # -------------------------------------------------------------------------------------------------
